@@ -112,6 +112,9 @@ class NPProxy:
     def sqrt(self, x):
         if isinstance(x, (SymReal, Jet)):
             return x.sqrt()
+        if type(x).__module__.startswith('sympy'):       # a module constant standing in as a sympy expression (C17)
+            import sympy
+            return sympy.sqrt(x)
         sq = self._atoms.get('sqrt_const')
         if sq is not None and not _is_symbolic(x) and _np.ndim(x) == 0:
             return sq(x)
